@@ -103,7 +103,10 @@ pub fn judge_seed(seed: &Program, depth: usize, sink: Option<&mut Sink>) -> Outc
     };
     // Seeds must have a defined meaning and a document that is equal to itself (no
     // orphan component): otherwise there is nothing to preserve.
-    if crate::refsem::meaning(seed).is_err() || doc::compare(&seed_doc, &seed_doc).is_err() {
+    if crate::refsem::meaning(seed).is_err()
+        || !crate::refsem::last_notes().is_empty()
+        || doc::compare(&seed_doc, &seed_doc).is_err()
+    {
         return Outcome::ok("seed outside the reference fragment (skipped)", None);
     }
     // The comparison treats the seed's own implicit components as the reference side.
@@ -176,8 +179,8 @@ impl Engine for C05 {
     fn phases(&self, tier: Tier) -> Vec<Phase> {
         match tier {
             Tier::Quick => vec![
-                Phase::new("depth 1 from every 5th fragment seed", json!({"step":5,"depth":1})),
-                Phase::new("depth 2 from every 120th fragment seed", json!({"step":120,"depth":2})),
+                Phase::new("depth 1 from every 2nd fragment seed", json!({"step":2,"depth":1})),
+                Phase::new("depth 2 from every 30th fragment seed", json!({"step":30,"depth":2})),
             ],
             Tier::Thorough => vec![
                 Phase::new("depth 1 from every fragment seed", json!({"step":1,"depth":1})),
